@@ -1,7 +1,7 @@
 /-
   Spil.Props.C11bExamples — non-vacuity of C11b on the SHIPPED configuration (a small world, a
   whole-segment star search, every hypothesis of the theorems discharged by the kernel), the
-  counterexample to soundness (FindInPaths ⊄ FindInList), and the counterexamples showing that
+  regression witness of the repaired soundness defect (D25), and the counterexamples showing that
   each hypothesis of `c11_pattern_matches` is needed.  GENERATED char lists; the statements are
   re-decided by the kernel on every build against the regenerated `DemoConf.lean`.
 -/
@@ -122,12 +122,18 @@ theorem ex_glob2 : SidGlob sSid e2 := by decide +kernel
 theorem ex_vals1 : entityValsOk demoCtx none e1 = true := by decide +kernel
 theorem ex_vals2 : entityValsOk demoCtx none e2 = true := by decide +kernel
 theorem ex_nobracket : '[' ∉ sPat := by decide +kernel
+theorem ex_nobracket_s : '[' ∉ sSid.string := by decide +kernel
+theorem ex_wt_s : wellTyped demoEnv demoConf.sid.templates sSid := wellTyped_of_B _ _ _ (by decide +kernel)
+theorem ex_wt_1 : wellTyped demoEnv demoConf.sid.templates e1 := wellTyped_of_B _ _ _ (by decide +kernel)
+theorem ex_wt_2 : wellTyped demoEnv demoConf.sid.templates e2 := wellTyped_of_B _ _ _ (by decide +kernel)
+theorem ex_whole : wholeStar sStr := by decide +kernel
 
 /-- (1) instantiated: the search succeeds, without duplicates, with the stated membership -/
 theorem ex_star_one : ∃ r, demoD.pathsStarSids w2 none [sSid] = .ok r ∧ r.Nodup ∧
     ∀ x, x ∈ r ↔ ∃ p ∈ w2.glob sPat,
-      demoCtx.sidOfPath p none = .ok x ∧ x.typed = true ∧ x.type = sSid.type :=
-  C11.c11_star_one demoD w2 none sSid sPat ex_pat (fun p _ => demo_total p)
+      demoCtx.sidOfPath p none = .ok x ∧ x.typed = true ∧ x.type = sSid.type ∧
+      Find.globMatch demoEnv sSid.string x.string = .ok true :=
+  C11.c11_star_one demoD w2 none sSid sPat ex_pat ex_nobracket_s (fun p _ => demo_total p)
 
 /-- (2) instantiated: the pattern matches the entity's path component by component -/
 theorem ex_pattern_matches :
@@ -141,18 +147,16 @@ theorem ex_pattern_matches :
 theorem ex_complete : ∃ r, demoD.pathsStarSids w2 none [sSid] = .ok r ∧ e1 ∈ r ∧ e2 ∈ r := by
   obtain ⟨r, hr, _, _⟩ := ex_star_one
   refine ⟨r, hr, ?_, ?_⟩
-  · exact C11.c11_complete demoD w2 none sSid e1 sPat p1 r ex_pat (by decide +kernel) ex_rt1 (by decide)
+  · exact C11.c11_complete demoD w2 none sSid e1 sPat p1 r ex_pat ex_wt_s ex_wt_1 ex_nobracket_s
+      (by decide +kernel) ex_rt1 (by decide)
       ex_glob1 demo_fix ex_vals1 ex_nobracket (fun p _ => demo_total p) hr
-  · exact C11.c11_complete demoD w2 none sSid e2 sPat p2 r ex_pat (by decide +kernel) ex_rt2 (by decide)
+  · exact C11.c11_complete demoD w2 none sSid e2 sPat p2 r ex_pat ex_wt_s ex_wt_2 ex_nobracket_s
+      (by decide +kernel) ex_rt2 (by decide)
       ex_glob2 demo_fix ex_vals2 ex_nobracket (fun p _ => demo_total p) hr
 
 /-- and by evaluation of the model: exactly these two, the junk file is ignored -/
 theorem ex_eval : demoD.pathsStarSids w2 none [sSid] = .ok [e1, e2] := okIs_eq _ _ (by decide +kernel)
 
-theorem ex_wt_s : wellTyped demoEnv demoConf.sid.templates sSid := wellTyped_of_B _ _ _ (by decide +kernel)
-theorem ex_wt_1 : wellTyped demoEnv demoConf.sid.templates e1 := wellTyped_of_B _ _ _ (by decide +kernel)
-theorem ex_wt_2 : wellTyped demoEnv demoConf.sid.templates e2 := wellTyped_of_B _ _ _ (by decide +kernel)
-theorem ex_whole : wholeStar sStr := by decide +kernel
 
 /-- the list search over the strings of the two entities finds both -/
 theorem ex_list : Find.starSearch demoEnv ⟨[e1, e2].map (·.string), false⟩ [sSid.string] =
@@ -174,7 +178,93 @@ theorem ex_list_subset_paths :
 theorem ex_string_glob : Glob sSid.string e1.string :=
   C11.c11_string_glob demoEnv demoConf.sid.templates sSid e1 ex_wt_s ex_wt_1 ex_glob1 (by decide +kernel)
 
-/-! ### (4) soundness FAILS: FindInPaths ⊄ FindInList -/
+/-! ### (5) FindInPaths = FindInList, local = server -/
+
+/-- the demo tree holds exactly the two entities plus junk (local configuration) -/
+theorem ex_holds : C11.HoldsExactly demoD w2 none sSid.type [e1, e2] where
+  ents_ok := by
+    intro e he
+    simp only [List.mem_cons, List.not_mem_nil, or_false] at he
+    rcases he with rfl | rfl
+    · exact ⟨ex_wt_1, by decide, ex_vals1, p1, by decide +kernel, ex_rt1⟩
+    · exact ⟨ex_wt_2, by decide, ex_vals2, p2, by decide +kernel, ex_rt2⟩
+  total := fun p _ => demo_total p
+  exact := by
+    intro p hp x hx hxt _
+    have hp' : p = p1 ∨ p = pJunk ∨ p = p2 := by simpa [w2] using hp
+    have hx' : demoCtx.sidOfPath p none = .ok x := hx
+    rcases hp' with rfl | rfl | rfl
+    · rw [ex_rt1] at hx'; injection hx' with hx'; subst hx'; simp
+    · rw [ex_junk] at hx'; injection hx' with hx'; subst hx'; simp [Sid.typed, Sid.empty] at hxt
+    · rw [ex_rt2] at hx'; injection hx' with hx'; subst hx'; simp
+
+/-- `c11_paths_eq_list_whole` instantiated on the demo world, every hypothesis discharged -/
+theorem ex_paths_eq_list :
+    ∃ found r, Find.starSearch demoEnv ⟨[e1, e2].map (·.string), false⟩ [sSid.string] = .ok found ∧
+      demoD.pathsStarSids w2 none [sSid] = .ok r ∧ found.Nodup ∧ r.Nodup ∧
+      ∀ x, x ∈ r ↔ (x ∈ [e1, e2] ∧ x.type = sSid.type ∧ x.string ∈ found) :=
+  C11.c11_paths_eq_list_whole demoD w2 none sSid sPat [e1, e2] ex_pat ex_wt_s ex_whole ex_nobracket_s
+    ex_nobracket demo_fix ex_holds
+
+/-- the same entities in the `server` configuration -/
+def srv : Option Str := some ['s','e','r','v','e','r']
+def sPatS : Str := ['/','R','/','d','a','t','a','/','t','e','s','t','i','n','g','/','S','P','I','L','_','P','R','O','J','E','C','T','S','/','S','E','R','V','E','R','/','P','R','O','J','E','C','T','S','/','H','A','M','L','E','T','/','P','R','O','D','/','A','S','S','E','T','S','/','*','/','*','/','m','o','d','e','l','/','*','/','*','_','*','_','m','o','d','e','l','_','W','O','R','K','_','*','.','m','a']
+def p1S : Str := ['/','R','/','d','a','t','a','/','t','e','s','t','i','n','g','/','S','P','I','L','_','P','R','O','J','E','C','T','S','/','S','E','R','V','E','R','/','P','R','O','J','E','C','T','S','/','H','A','M','L','E','T','/','P','R','O','D','/','A','S','S','E','T','S','/','c','h','a','r','/','o','p','h','e','l','i','a','/','m','o','d','e','l','/','v','0','0','1','/','c','h','a','r','_','o','p','h','e','l','i','a','_','m','o','d','e','l','_','W','O','R','K','_','v','0','0','1','.','m','a']
+def p2S : Str := ['/','R','/','d','a','t','a','/','t','e','s','t','i','n','g','/','S','P','I','L','_','P','R','O','J','E','C','T','S','/','S','E','R','V','E','R','/','P','R','O','J','E','C','T','S','/','H','A','M','L','E','T','/','P','R','O','D','/','A','S','S','E','T','S','/','p','r','o','p','/','s','k','u','l','l','/','m','o','d','e','l','/','v','0','0','2','/','p','r','o','p','_','s','k','u','l','l','_','m','o','d','e','l','_','W','O','R','K','_','v','0','0','2','.','m','a']
+def pJunkS : Str := ['/','R','/','d','a','t','a','/','t','e','s','t','i','n','g','/','S','P','I','L','_','P','R','O','J','E','C','T','S','/','S','E','R','V','E','R','/','P','R','O','J','E','C','T','S','/','H','A','M','L','E','T','/','P','R','O','D','/','r','e','a','d','m','e','.','t','x','t']
+def w2S : World := ⟨[(p2S, .file), (pJunkS, .file), (p1S, .file)], []⟩
+
+theorem ex_pcS : demoCtx.cfg.pathConf? srv = some demoPath_server := by decide +kernel
+theorem ex_patS : demoCtx.sidPath srv sSid = .ok (some sPatS) := okIs_eq _ _ (by decide +kernel)
+theorem ex_rt1S : demoCtx.sidOfPath p1S srv = .ok e1 := okIs_eq _ _ (by decide +kernel)
+theorem ex_rt2S : demoCtx.sidOfPath p2S srv = .ok e2 := okIs_eq _ _ (by decide +kernel)
+theorem ex_junkS : demoCtx.sidOfPath pJunkS srv = .ok Sid.empty := okIs_eq _ _ (by decide +kernel)
+
+theorem demo_totalS (p : Str) : ∃ x, demoCtx.sidOfPath p srv = .ok x := by
+  apply C11.c11_total_of_wf demoD srv demoPath_server ex_pcS Tie.demo_path_wf_server
+  intro label hl
+  have hall : demoPath_server.templates.all (fun lt =>
+      (demoConf.sid.keyTypes.lookup (((Str.splitStr lt.1 demoConf.sid.sep).head?).getD [])).isSome) = true := by
+    decide +kernel
+  cases hlk : demoPath_server.resolver.lookup label with
+  | none => rw [hlk] at hl; cases hl
+  | some t => exact List.all_eq_true.1 hall _ (FSL.lookup_some_mem _ _ _ hlk)
+
+theorem demo_fixS (pc : PathConf) (h : demoCtx.cfg.pathConf? srv = some pc) : starFixed pc = true := by
+  rw [ex_pcS] at h
+  injection h with h
+  subst h
+  decide +kernel
+
+theorem ex_holdsS : C11.HoldsExactly demoD w2S srv sSid.type [e1, e2] where
+  ents_ok := by
+    intro e he
+    simp only [List.mem_cons, List.not_mem_nil, or_false] at he
+    rcases he with rfl | rfl
+    · exact ⟨ex_wt_1, by decide, by decide +kernel, p1S, by decide +kernel, ex_rt1S⟩
+    · exact ⟨ex_wt_2, by decide, by decide +kernel, p2S, by decide +kernel, ex_rt2S⟩
+  total := fun p _ => demo_totalS p
+  exact := by
+    intro p hp x hx hxt _
+    have hp' : p = p2S ∨ p = pJunkS ∨ p = p1S := by simpa [w2S] using hp
+    have hx' : demoCtx.sidOfPath p srv = .ok x := hx
+    rcases hp' with rfl | rfl | rfl
+    · rw [ex_rt2S] at hx'; injection hx' with hx'; subst hx'; simp
+    · rw [ex_junkS] at hx'; injection hx' with hx'; subst hx'; simp [Sid.typed, Sid.empty] at hxt
+    · rw [ex_rt1S] at hx'; injection hx' with hx'; subst hx'; simp
+
+/-- LOCAL = SERVER instantiated: the local tree and the server tree (different roots, different
+    order, different junk) answer the search with the same set of Sids -/
+theorem ex_local_eq_server :
+    ∃ r1 r2, demoD.pathsStarSids w2 none [sSid] = .ok r1 ∧ demoD.pathsStarSids w2S srv [sSid] = .ok r2 ∧
+      r1.Nodup ∧ r2.Nodup ∧ (∀ x, x ∈ r1 ↔ x ∈ r2) ∧ r1.Perm r2 :=
+  C11.c11_local_eq_server demoD w2 w2S none srv sSid sPat sPatS [e1, e2] ex_pat ex_patS ex_wt_s
+    ex_whole ex_nobracket_s ex_nobracket (by decide +kernel) demo_fix demo_fixS ex_holds ex_holdsS
+
+/-- by evaluation: the server tree lists the skull first, so the two answers differ in order -/
+theorem ex_evalS : demoD.pathsStarSids w2S srv [sSid] = .ok [e2, e1] := okIs_eq _ _ (by decide +kernel)
+
+/-! ### (4) the repaired soundness defect (D25): regression witness -/
 
 /-- "hamlet/a/char/*/model/*/w/ma": state `w` (WORK) is searched -/
 def cStr : Str := ['h','a','m','l','e','t','/','a','/','c','h','a','r','/','*','/','m','o','d','e','l','/','*','/','w','/','m','a']
@@ -206,24 +296,32 @@ def xPath : Str := ['/','R','/','d','a','t','a','/','t','e','s','t','i','n','g',
 
 def w1 : World := ⟨[(xPath, .file), (p1, .file)], []⟩
 
-/-- COUNTEREXAMPLE to soundness on the shipped configuration: the file name pattern
-    `char_*_model_WORK_*.ma` rendered for the search "…/char/*/model/*/w/ma" matches the file
+/-- REGRESSION WITNESS of D25.  Before the repair the path search for "…/char/*/model/*/w/ma"
+    returned `[xSid, e1]`: the file name pattern `char_*_model_WORK_*.ma` matches the file
     `char_x_model_WORK_model_PUBLISH_v001.ma` of the PUBLISHED entity
     "hamlet/a/char/x_model_WORK/model/v001/p/ma" (the `*` of the version swallows
-    "model_PUBLISH_v001").  The entity exists, round-trips and is well typed, the path search
-    returns it, the search Sid does NOT glob it (state `w` ≠ `p`), and the list search over the
-    same two entities does not return it. -/
-theorem c11_sound_counterexample :
+    "model_PUBLISH_v001").  The path pattern STILL globs that path (`xPath ∈ w1.glob cPat`), the
+    entity exists, round-trips and is well typed, the search Sid does not glob it (state `w` ≠
+    `p`), the list search over the same two entities does not return it — and the repaired path
+    search no longer returns it either. -/
+theorem c11_sound_regression :
     demoCtx.sidOfString cStr = .ok cSid ∧
     demoCtx.sidPath none cSid = .ok (some cPat) ∧
     demoCtx.sidOfPath xPath none = .ok xSid ∧
     demoCtx.sidOfString xSid.string = .ok xSid ∧
-    demoD.pathsStarSids w1 none [cSid] = .ok [xSid, e1] ∧
+    xPath ∈ w1.glob cPat ∧
     ¬ SidGlob cSid xSid ∧
-    Find.starSearch demoEnv ⟨[xSid.string, e1.string], false⟩ [cSid.string] = .ok [e1.string] :=
+    Find.starSearch demoEnv ⟨[xSid.string, e1.string], false⟩ [cSid.string] = .ok [e1.string] ∧
+    demoD.pathsStarSids w1 none [cSid] = .ok [e1] :=
   ⟨okIs_eq _ _ (by decide +kernel), okIs_eq _ _ (by decide +kernel), okIs_eq _ _ (by decide +kernel),
-   okIs_eq _ _ (by decide +kernel), okIs_eq _ _ (by decide +kernel), by decide +kernel,
-   okIs_eq _ _ (by decide +kernel)⟩
+   okIs_eq _ _ (by decide +kernel), by decide +kernel, by decide +kernel,
+   okIs_eq _ _ (by decide +kernel), okIs_eq _ _ (by decide +kernel)⟩
+
+/-- soundness instantiated on that world: whatever is returned is globbed by the search string -/
+theorem ex_sound : ∀ x ∈ [e1], x.typed = true ∧ x.type = cSid.type ∧ Glob cSid.string x.string ∧
+    ∃ p, w1.pathExists p = true ∧ demoCtx.sidOfPath p none = .ok x ∧
+      demoCtx.sidPath none x = .ok (some p) :=
+  C11.c11_sound demoD w1 none cSid [e1] (by decide +kernel) c11_sound_regression.2.2.2.2.2.2.2
 
 /-! ### the hypotheses of `c11_pattern_matches` are needed -/
 
@@ -288,7 +386,46 @@ theorem c11_bracket_needed :
   ⟨okIs_eq _ _ (by decide +kernel), okIs_eq _ _ (by decide +kernel), by decide +kernel, by decide +kernel,
    by decide +kernel⟩
 
-/-! ### what holds of soundness, instantiated -/
+/-! ### the hypothesis `SameStr` of `c11_star_list` is needed -/
+
+/-- sid template `t` = "{a}/{b}", path template "/r/{a}/{b}", value mapping `a`: X ↦ x -/
+def mapCtx : Ctx :=
+  { cfg := { sid := { sep := ['_','_'], searchSymbols := [['*']],
+                      templates := [(['t'], [.ph ['a'] (Re.star Cls.notSlash), .lit ['/'],
+                                             .ph ['b'] (Re.star Cls.notSlash)])],
+                      keyTypes := [(['t'], [['a'], ['b']])], leafKeys := [],
+                      extensionAlias := [], basetypedNarrowing := [], typedNarrowing := [] }
+             paths := [{ name := ['l'],
+                         templates := [(['t'], [.lit ['/','r','/'], .ph ['a'] (Re.star Cls.notSlash), .lit ['/'],
+                                                .ph ['b'] (Re.star Cls.notSlash)])],
+                         mapping := [(['a'], [(['X'], ['x'])])], defaults := [], searchMapping := [] }]
+             defaultPath := ['l'], dataSuffix := [] }
+    env := { isDigit := fun _ => false } }
+
+def mapD : DCtx := ⟨mapCtx, ⟨[.paths none], [], some 0, [], true⟩⟩
+
+/-- without `SameStr`: the typed searches "X/*" and "x/*" render the SAME pattern "/r/X/*" (the
+    reverse mapping sends `x` to `X` and leaves `X` alone) but have different strings.  The code
+    globs the pair (type, pattern) once, for "X/*", whose string does not match the found Sid
+    "x/foo"; the second search is skipped as "already searched".  So `[X/*, x/*]` finds nothing
+    although `[x/*]` alone finds "x/foo": the union characterisation fails (and the repaired
+    `star_search_simple` misses a result — its `searched` cache is keyed by (type, pattern) while
+    the new filter depends on the search string). -/
+theorem c11_sameStr_needed :
+    let s1 : Sid := ⟨['X','/','*'], ['t'], [(['a'], ['X']), (['b'], ['*'])]⟩
+    let s2 : Sid := ⟨['x','/','*'], ['t'], [(['a'], ['x']), (['b'], ['*'])]⟩
+    let x : Sid := ⟨['x','/','f','o','o'], ['t'], [(['a'], ['x']), (['b'], ['f','o','o'])]⟩
+    let w := oneFile ['/','r','/','X','/','f','o','o']
+    mapCtx.sidOfString s1.string = .ok s1 ∧ mapCtx.sidOfString s2.string = .ok s2 ∧
+    mapCtx.sidPath none s1 = .ok (some ['/','r','/','X','/','*']) ∧ mapCtx.sidPath none s2 = .ok (some ['/','r','/','X','/','*']) ∧
+    mapCtx.sidOfPath ['/','r','/','X','/','f','o','o'] none = .ok x ∧
+    mapD.pathsStarSids w none [s2] = .ok [x] ∧
+    mapD.pathsStarSids w none [s1, s2] = .ok [] :=
+  ⟨okIs_eq _ _ (by decide +kernel), okIs_eq _ _ (by decide +kernel), okIs_eq _ _ (by decide +kernel),
+   okIs_eq _ _ (by decide +kernel), okIs_eq _ _ (by decide +kernel), okIs_eq _ _ (by decide +kernel),
+   okIs_eq _ _ (by decide +kernel)⟩
+
+/-! ### path-level facts behind the old defect, instantiated -/
 
 /-- the path template of `asset__file` in the shipped `local` configuration -/
 def assetFileTpl : Template := (demoPath_local.resolver.lookup cSid.type).getD []
@@ -301,21 +438,12 @@ theorem ex_pinned :
     pinned ['s','t','a','t','e'] assetFileTpl = false ∧ pinned ['e','x','t'] assetFileTpl = false := by
   decide +kernel
 
-/-- `c11_sound_paths` on the counterexample world: the pattern globs the path of the (wrongly)
-    found Sid as a whole string -/
-theorem ex_sound_whole : Glob cPat xPath := by
-  obtain ⟨_, _, p, _, _, h1, hg⟩ := C11.c11_sound_paths demoD w1 none cSid cPat [xSid, e1]
-    c11_sound_counterexample.2.1 (fun p _ => demo_total p) c11_sound_counterexample.2.2.2.2.1 xSid
-    (by simp)
-  have h1' : demoCtx.sidPath none xSid = .ok (some p) := h1
-  have h2 := C06.c06_owner demoCtx xPath none xSid c11_sound_counterexample.2.2.1 (by decide)
-  rw [h1'] at h2
-  injection h2 with h2
-  injection h2 with h2
-  subst h2
-  exact hg
+/-- the rendered pattern globs the path of the state-`p` entity as a whole string: the path test
+    alone cannot tell it apart -/
+theorem ex_sound_whole : Glob cPat xPath :=
+  (glob_sound w1 cPat xPath c11_sound_regression.2.2.2.2.1).2
 
-/-- `c11_sound_pinned_partial` on the counterexample world: for the pinned key `task` the found
+/-- `c11_sound_pinned_partial` on the regression world: for the pinned key `task` the
     Sid's path value is globbed by (here: equals) the search's path value -/
 theorem ex_sound_pinned :
     ∃ vs vx, (Ctx.pathData demoPath_local cSid.fields (Template.keys assetFileTpl)).get ['t','a','s','k'] = some vs ∧
